@@ -325,7 +325,7 @@ def generate(rng, tier):
             op["t"] = rng.randrange(nthreads)
             ops.append(op)
     est = sum(1 for o in ops if o["op"] == "req") * 450
-    return {"ops": ops, "nthreads": nthreads, "policy": gen_policy(rng, est)}
+    return {"ops": ops, "nthreads": nthreads, "policy": gen_policy(rng, est), "debug_log": rng.random() < 0.25}
 
 
 def simplify(trace):
@@ -346,6 +346,8 @@ def simplify(trace):
                 yield dict(trace, ops=ops[:i] + [dict(op, adapters={"list": lst[:j] + lst[j + 1:]})] + ops[i + 1:])
     if trace.get("nthreads", 1) > 1:
         yield dict(trace, nthreads=1, schedule=[])
+    if trace.get("debug_log"):
+        yield dict(trace, debug_log=False)
 
 
 # --------------------------------------------------------------------------
@@ -665,6 +667,7 @@ def check_ids(world, tr):
 def execute(trace, rng):
     log = EventLog()
     shim, tr = hw.install_seams(trace.get("seed", 0) ^ 0xC17, log)
+    hw.set_debug_logging(bool(trace.get("debug_log")))
     world = World(log)
     ops = [dict(op) for op in trace["ops"]]
     nthreads = trace.get("nthreads", 1)
